@@ -1,6 +1,7 @@
 (* C14 — numeric literals reach the datapath unchanged or are rejected.
    Statements only; proofs live in Portus.Lang.LitFacts. *)
-From Portus Require Import Image LitFacts.
+From Portus Require Import Image LitFacts TablesTie.
+From PortusGen Require Import LangTables.
 
 (* lexical: a numeral (a maximal run of decimal digits) is the number it denotes when that fits
    64 bits and a hard parse failure otherwise — it is never re-read as a name *)
@@ -55,3 +56,9 @@ Example C14_example_boundaries :
   p_atom (lit "18446744073709551616 ") = PFail /\
   p_atom (lit "18446744073709551615)") = POk (Atom (PNum 18446744073709551615)) (lit ")").
 Proof. vm_compute. repeat split; reflexivity. Qed.
+
+(* translator obligation: the bound the encoder compares an immediate with, read from
+   src/lang/serialize.rs on every run, is the model's *)
+Theorem C14_source_immediate_bound_is_the_models : 2 ^ impl_imm_bits = IMM_LIMIT.
+Proof. exact imm_limit_tie. Qed.
+Print Assumptions C14_source_immediate_bound_is_the_models.
